@@ -34,6 +34,12 @@ def single_cases():
     cases.append(("nested-path-csv", {"args": ["report", "--csv", "in.tjp"], "files": {"in.tjp": ins["nested-reports"]}}))
     cases.append(("simple-stdin-json", {"args": ["report", "-"], "files": {}, "stdin": ins["simple"]}))
     cases.append(("own-both-stdin-csv", {"args": ["report", "--csv"], "files": {}, "stdin": ins["own-both"]}))
+    odd = "plan_caf\udce9.tjp"   # a file name whose bytes are not valid UTF-8 (surrogate-escaped)
+    cases.append(("odd-filename-json", {"args": ["report", odd], "files": {odd: ins["simple"]}}))
+    cases.append(("odd-filename-csv", {"args": ["--quiet", "report", "--csv", odd], "files": {odd: ins["own-both"]}}))
+    good = ins["simple"]
+    for rname in ("../esc", "sub/dir/deep", "./x"):
+        cases.append((f"report-name-{rname}", {"args": ["report", "in.tjp"], "files": {"in.tjp": good + f'taskreport r1 "{rname}" {{\n  formats json, csv\n  columns id\n}}\n'.encode()}}))
     for name in ("missing", "directory", "empty-file", "empty-stdin", "syntax-error", "syntax-error-stdin", "not-utf8", "illegal-report-name"):
         b = bad[name]
         cases.append((f"bad-{name}", {"args": b["args"], "files": b["files"], "stdin": b.get("stdin"), "dirs": b.get("dirs")}))
